@@ -166,12 +166,16 @@ def rand_fault(rng, contents):
             f["lost"] = True
         if rng.random() < 0.15:
             f["regfail"] = True
+        if rng.random() < 0.1:
+            f["idxfail"] = True
         return f
     if k < 0.53:
         f = {"k": "retry", "keep": -1, "flip": -1, "lost": rng.random() < 0.5, "regfail": False, "mark": rng.random() < 0.6}
         if rng.random() < 0.3:
             f["keep"] = rng.randint(0, 9)
         return f
+    if k < 0.57:
+        return {"k": "existserr", "keep": -1, "flip": -1, "lost": False, "regfail": False, "reached": rng.random() < 0.4}
     if k < 0.6:
         return {"k": "drop", "keep": -1, "flip": -1, "lost": False, "regfail": False}
     if k < 0.72:
@@ -213,6 +217,8 @@ def gen_case(rng, cid):
                 run["rec"] = "drop"
             elif rr < 0.2:
                 run["rec"] = "lost"
+            elif rr < 0.32:
+                run["rec"] = "idxfail"
             run["puts"] = [rand_fault(rng, contents) for _ in range(rng.randint(0, npaths + 1))]
             events.append(run)
         elif r < 0.78:
@@ -314,6 +320,20 @@ def corpus_cases():
     # ... and the checkpoint AHEAD of the hub (staging swept / shorter): hub answers the truth
     out.append([{"op": "create", "p": 1, "b": c}, run([dict(D, keep=5)]), run([dict(D, keep=1, lost=True)]),
                 run([dict(D, keep=0)]), run(), run()])
+    # hub index refuses writes: during the reconcile that has to forget a stale receipt (the batch must fail,
+    # never vouch for the vanished file), during a reconcile with nothing to forget, and during Record
+    out.append([{"op": "create", "p": 1, "b": c}, run([dict(D, lost=True)]), {"op": "hubremove", "p": 1}, run(rec="idxfail"), run(), run()])
+    out.append([{"op": "create", "p": 1, "b": c}, {"op": "create", "p": 2, "b": c2}, run([dict(D, lost=True), dict(D, lost=True)]),
+                {"op": "hubremove", "p": 2}, run(rec="idxfail"), run(rec="idxfail"), run()])
+    out.append([{"op": "create", "p": 1, "b": c}, run([dict(D, lost=True)]), run(rec="idxfail"), run()])
+    out.append([{"op": "create", "p": 1, "b": c}, run(), {"op": "hubmark", "p": 1}, {"op": "hubdeleteraw", "p": 1}, {"op": "prune"}, run(rec="idxfail")])
+    out.append([{"op": "create", "p": 1, "b": c}, run([dict(D, idxfail=True)]), run([dict(D, idxfail=True)]), run()])
+    out.append([{"op": "create", "p": 1, "b": c}, run([dict(D, idxfail=True, lost=True)]), {"op": "hubremove", "p": 1}, run(rec="idxfail"), run()])
+    # the transfer fails and the spoke's storage errors on Exists: nothing may be skipped (file present or not)
+    XE = {"k": "existserr", "keep": -1, "flip": -1, "lost": False, "regfail": False, "reached": False}
+    out.append([{"op": "create", "p": 1, "b": c}, run([XE]), run()])
+    out.append([{"op": "create", "p": 1, "b": c}, run([dict(XE, reached=True)]), run([XE]), run()])
+    out.append([{"op": "create", "p": 1, "b": c}, run(crash=2), {"op": "vanish", "p": 1}, run([XE]), run([XE]), run()])
     # corrupted full body
     out.append([{"op": "create", "p": 1, "b": c}, run([dict(D, flip=7)]), run()])
     # register failure after promote, then redelivery re-registers
@@ -394,6 +414,8 @@ def copt(x, f):
 def fault_to_coq(f):
     if f["k"] == "drop":
         return "FDropBefore"
+    if f["k"] == "existserr":
+        return "(FExistsErr %s)" % cbool(f.get("reached", False))
     if f["k"] == "backpressure":
         return "FBackpressure"
     if f["k"] == "conflict":
@@ -404,7 +426,9 @@ def fault_to_coq(f):
         return "(FRetry {| bm_keep := %s; bm_flip := %s |} %s %s)" % (keep, flip, cbool(f.get("mark", False)), cbool(f["lost"]))
     keep = "None" if f["keep"] < 0 else "(Some %d)" % f["keep"]
     flip = "None" if f["flip"] < 0 else "(Some %d)" % f["flip"]
-    return "(FDeliver {| bm_keep := %s; bm_flip := %s |} %s %s)" % (keep, flip, cbool(f["lost"]), cbool(f["regfail"]))
+    # a failed receipt write and a failed RegisterFile are the same hub-side failure for the model:
+    # the request errors after the promote (or before any change when the file already exists)
+    return "(FDeliver {| bm_keep := %s; bm_flip := %s |} %s %s)" % (keep, flip, cbool(f["lost"]), cbool(f["regfail"] or f.get("idxfail", False)))
 
 
 def event_to_coq(e):
@@ -426,7 +450,7 @@ def event_to_coq(e):
     if op == "hubremove":
         return "(EHubRemove %d)" % e["p"]
     crash = "None" if e["crash"] < 0 else "(Some %d%%nat)" % e["crash"]
-    rec = {"ok": "ROk", "drop": "RDropBefore", "lost": "RLostReply"}[e["rec"]]
+    rec = {"ok": "ROk", "drop": "RDropBefore", "lost": "RLostReply", "idxfail": "RIndexFail"}[e["rec"]]
     return "(ERun {| s_crash := %s; s_rec := %s; s_puts := %s |})" % (crash, rec, clist([fault_to_coq(f) for f in e["puts"]]))
 
 
@@ -542,7 +566,7 @@ def has_fault(c):
             if e["crash"] >= 0 or e["rec"] != "ok":
                 return True
             for f in e["puts"]:
-                if f["k"] != "deliver" or f["keep"] >= 0 or f["flip"] >= 0 or f["lost"] or f["regfail"]:
+                if f["k"] != "deliver" or f["keep"] >= 0 or f["flip"] >= 0 or f["lost"] or f["regfail"] or f.get("idxfail"):
                     return True
     return False
 
@@ -555,7 +579,7 @@ def effective_fault(c):
             if o.get("crashed") or (e["rec"] != "ok" and "Reconcile" in (o.get("points") or [])):
                 return True
             for f, k in zip(e["puts"], o.get("calls") or []):
-                if f["k"] != "deliver" or f["keep"] >= 0 or f["flip"] >= 0 or f["lost"] or f["regfail"]:
+                if f["k"] != "deliver" or f["keep"] >= 0 or f["flip"] >= 0 or f["lost"] or f["regfail"] or f.get("idxfail"):
                     return True
     return False
 
@@ -675,6 +699,8 @@ def run(res, tier, seed):
     res.cov["trusted_base"] += [
         "SHA-256 idealised as an injective function (Section hypothesis H_inj of every content theorem); the correspondence instantiates it with the identity and maps observed digests back to contents",
         "spoke paths are immutable and never reused (ledger.Track's documented PRECONDITION): ECreate on a used path is a no-op in the model and never generated",
+        "spoke backend faults: a transient error of storage.Backend.Exists during skipIfVanished is injected by a wrapper around the spoke's LocalBackend (a ReadTo error of the source is indistinguishable from a dropped request at the transport and is covered by the drop fault)",
+        "hub index write failures are injected with PRAGMA query_only on the hub database (pinned to one connection) for the duration of one hub call: Reconcile (ForgetBatch) or Receive (Record); the model folds a failed Record into the same hub-side failure as a failed RegisterFile",
         "environment steps are harness emulations: hub compaction = HubIndex.MarkCompacted of a file that exists and HAS a receipt, followed at any later point by the deletion of the raw file (two separate events; a received file compacted before its receipt exists is outside the model), hub removal = delete of a file compaction has not consumed, PruneSynced with the retention elapsed for every synced row; a transport-level retry (same request delivered twice, first answer lost, optionally with the compaction mark in between) is a fault of the harness transport",
         "modelled configuration: BatchSize = 0 (one reconcile page, no 413 splitting), MaxConcurrent = 1, one spoke id, resumable LocalBackend on the hub, requests for one path are not concurrent; the HTTP encoding between HTTPTransport and the hub handler is replaced by the in-memory transport of the harness",
         "SQLite statements and LocalBackend rename are atomic (process-crash model); crash points = before every ledger write / transport call of agent.go (inserted by textual overlay of the current agent.go)",
@@ -715,7 +741,7 @@ def run(res, tier, seed):
                 hist["crashed_runs"] += 1 if o.get("crashed") else 0
                 for f, k in zip(e["puts"], o.get("calls") or []):
                     kind = (f["k"] + ("+mark" if f.get("mark") else "") + ("+lostack" if f["k"] == "retry" and f["lost"] else "")) if f["k"] != "deliver" else "deliver" + ("+short" if f["keep"] >= 0 else "") + (
-                        "+corrupt" if f["flip"] >= 0 else "") + ("+lostack" if f["lost"] else "") + ("+regfail" if f["regfail"] else "")
+                        "+corrupt" if f["flip"] >= 0 else "") + ("+lostack" if f["lost"] else "") + ("+regfail" if f["regfail"] else "") + ("+idxfail" if f.get("idxfail") else "")
                     hist["faults_consumed"][kind] = hist["faults_consumed"].get(kind, 0) + 1
                 r = o.get("result") or {}
                 for k in ("Sent", "AlreadyPresent", "Partial", "Failed", "Skipped"):
